@@ -475,7 +475,7 @@ impl Deb822 {
             } else {
                 paragraph.1
             };
-            inject(&mut builder, new_paragraph.0);
+            inject_terminated(&mut builder, new_paragraph.0);
         }
 
         if n_paragraphs > 0 && current.iter().any(|c| c.kind() == COMMENT) {
@@ -664,6 +664,31 @@ fn terminate_line(last: &SyntaxToken) {
         let parent = last.parent().unwrap();
         let count = parent.children_with_tokens().count();
         parent.splice_children(count..count, vec![newline.into()]);
+    }
+}
+
+/// Like `inject`, but makes sure the copied text ends in a newline (the
+/// last paragraph of a document may lack one), so that whatever is written
+/// after it starts on a line of its own.
+fn inject_terminated(builder: &mut GreenNodeBuilder, node: SyntaxNode) {
+    fn go(builder: &mut GreenNodeBuilder, node: SyntaxNode, last: &SyntaxToken) {
+        builder.start_node(node.kind().into());
+        for child in node.children_with_tokens() {
+            match child {
+                rowan::NodeOrToken::Node(child) => go(builder, child, last),
+                rowan::NodeOrToken::Token(token) => {
+                    builder.token(token.kind().into(), token.text());
+                    if &token == last {
+                        builder.token(NEWLINE.into(), "\n");
+                    }
+                }
+            }
+        }
+        builder.finish_node();
+    }
+    match node.last_token() {
+        Some(last) if last.kind() != NEWLINE => go(builder, node, &last),
+        _ => inject(builder, node),
     }
 }
 
